@@ -830,6 +830,15 @@ func (c *Ctx) orderedBefore(u *FuncUnit, call *ast.CallExpr, a, b *types.Var) st
 				if mentions(x, p[0]) && mentions(y, p[1]) && !mentions(x, p[1]) && !mentions(y, p[0]) {
 					found = fmt.Sprintf("%s and %s are swapped exactly when %s > %s, before the scan", p[0].Name(), p[1].Name(), p[0].Name(), p[1].Name())
 				}
+				// the encoded bounds swapped under the test of the bounds they were encoded from (the
+				// encodings of these kinds preserve the order – C07/R15 – and the sources are not
+				// assigned between the encoding and the test)
+				if len(pairs) == 2 && p == pairs[0] {
+					q := pairs[1]
+					if mentions(x, q[0]) && mentions(y, q[1]) && !mentions(x, q[1]) && !mentions(y, q[0]) && !assignedAnywhere(info, u.Body, q[0]) && !assignedAnywhere(info, u.Body, q[1]) {
+						found = fmt.Sprintf("%s and %s are swapped exactly when %s > %s (the bounds they encode), before the scan", p[0].Name(), p[1].Name(), q[0].Name(), q[1].Name())
+					}
+				}
 			}
 		}
 		return true
@@ -1040,6 +1049,12 @@ func ruleR39R40(c *Ctx) {
 // isGreatestKeyCall: the call yields restoreKey(maximum(t.root)) – written in place or inside a
 // helper of the tree that returns it (lastKey()).
 func (c *Ctx) isGreatestKeyCall(u *FuncUnit, call *ast.CallExpr, depth int) bool {
+	return c.isGreatestKeyCallBound(u, call, depth, nil, nil)
+}
+
+// isGreatestKeyCallBound: as isGreatestKeyCall, inside a helper whose parameters are bound to the
+// arguments of the call that reached it (leafPair(maximum(t.root)) → restoreKey(l)).
+func (c *Ctx) isGreatestKeyCallBound(u *FuncUnit, call *ast.CallExpr, depth int, bindU *FuncUnit, bind map[*types.Var]ast.Expr) bool {
 	m := c.m
 	info := m.Info
 	if depth > 2 {
@@ -1047,10 +1062,16 @@ func (c *Ctx) isGreatestKeyCall(u *FuncUnit, call *ast.CallExpr, depth int) bool
 	}
 	if m.isRestoreCall(call) && len(call.Args) == 1 {
 		arg := ast.Unparen(m.throughLocals(u, call.Args[0]))
+		frame := u
+		if pv := identVar(info, arg); pv != nil && bind != nil {
+			if b, ok := bind[pv]; ok && !assignedAnywhere(info, u.Body, pv) {
+				arg, frame = ast.Unparen(m.throughLocals(bindU, b)), bindU
+			}
+		}
 		hc, _ := arg.(*ast.CallExpr)
 		if hc == nil {
 			if lv := identVar(info, arg); lv != nil {
-				hc = c.defCallOf(u, lv)
+				hc = c.defCallOf(frame, lv)
 			}
 		}
 		if hc == nil {
@@ -1062,6 +1083,19 @@ func (c *Ctx) isGreatestKeyCall(u *FuncUnit, call *ast.CallExpr, depth int) bool
 	cu := m.calleeUnit(call)
 	if cu == nil || cu.Body == nil || cu.Lit != nil {
 		return false
+	}
+	// the callee's parameters stand for the arguments of this call
+	nb := map[*types.Var]ast.Expr{}
+	if cu.Type.Params != nil {
+		i := 0
+		for _, f := range cu.Type.Params.List {
+			for _, nm := range f.Names {
+				if v, _ := info.Defs[nm].(*types.Var); v != nil && i < len(call.Args) {
+					nb[v] = call.Args[i]
+				}
+				i++
+			}
+		}
 	}
 	found, okAll := false, true
 	ast.Inspect(cu.Body, func(n ast.Node) bool {
@@ -1079,7 +1113,7 @@ func (c *Ctx) isGreatestKeyCall(u *FuncUnit, call *ast.CallExpr, depth int) bool
 				return true // the zero key of a "none" result
 			}
 		}
-		if dc != nil && c.isGreatestKeyCall(cu, dc, depth+1) {
+		if dc != nil && c.isGreatestKeyCallBound(cu, dc, depth+1, u, nb) {
 			found = true
 		} else {
 			okAll = false
@@ -1159,6 +1193,13 @@ func (c *Ctx) keyParamSource(u *FuncUnit, v *types.Var) *types.Var {
 			as, ok := n.(*ast.AssignStmt)
 			if !ok {
 				return true
+			}
+			// a swap of two variables defines neither of them anew
+			if len(as.Lhs) == 2 && len(as.Rhs) == 2 {
+				l0, l1, r0, r1 := identVar(info, as.Lhs[0]), identVar(info, as.Lhs[1]), identVar(info, as.Rhs[0]), identVar(info, as.Rhs[1])
+				if l0 != nil && l1 != nil && l0 == r1 && l1 == r0 {
+					return true
+				}
 			}
 			hit := false
 			hitAt := map[int]bool{}
